@@ -31,7 +31,7 @@ def byte_faults(pid, tier, tag, max_pos, raw_len, sim=None):
                 if key not in seen:
                     seen.add(key)
                     keep.append(r)
-        first = os.path.join(d, "bytefaults_%s.ndjson" % tag.replace("_sim", ""))
+        first = os.path.join(d, "bytefaults_%s.ndjson" % tag.split("_sim")[0])
         tables = [r for r in vlib.read_ndjson(first) if r["k"] == "tables"]
         with open(vec, "w") as o:
             for r in tables + keep:
